@@ -6,7 +6,10 @@ sys.path.insert(0, os.path.dirname(os.path.dirname(os.path.abspath(__file__))))
 BASELINE_OFF = "cd /repo && env -u MOSAIK_VERIF_TRACE /venv/bin/python -m pytest -ra -q -p no:cacheprovider --timeout=900 --continue-on-collection-errors"
 
 SCHED_NOTE = ("Trusted base: TLC, the harness's scripted asynchronous proxies and virtual-time asyncio loop (CPython's BaseEventLoop with I/O polling and clock replaced), "
-              "the observable-event recorder. Bounded: scenario families of 2-5 simulators, until <= 6; nothing is proved for arbitrary sizes.")
+              "the observable-event recorder. Bounded: scenario families of 2-11 simulators (mostly 2-5), simulation times up to ~30 (one profile around 1000/86400); "
+              "the families vary topology, groups, all connection kinds and combinations, reply interleavings, start and connect orders, lazy / cache / debug, "
+              "transports (scripted asynchronous, shipped LocalProxy incl. old API and generator style, shipped RemoteProxy over fake streams), output values, "
+              "identifier shapes and the public connect entry points (DESIGN.md 11.6 lists what each seeded change forced in); nothing is proved for arbitrary sizes.")
 
 CHECKS = {
  "C01": ("§6 C01", "TLC explores the implementation-shaped spec MosaikSched exhaustively on small scenario configs with the reference clauses C01_* (consumer form, producer form, no trigger delivered into the past) as invariants; TLC behaviours are replayed into the real scheduler; thousands of real executions under controlled reply interleavings (incl. sibling groups, weak/shifted/async connections) are judged by TLC against the reference semantics.",
